@@ -555,7 +555,18 @@ class Tensor:
         return reshape(self, shape)
 
     def view(self, *shape):
-        return self.reshape(*shape)
+        if len(shape) == 1 and _isinstance(shape[0], (list, tuple)):
+            shape = shape[0]
+        if len(shape) == 1 and _isinstance(shape[0], dtype):
+            unsupported('view(dtype)')
+        r = reshape(self, shape)
+        # torch.Tensor.view never copies: it fails where the strides are incompatible (numpy has the same notion)
+        probe = self.a.view()
+        try:
+            probe.shape = tuple(r.a.shape)
+        except AttributeError:
+            raise RuntimeError("view size is not compatible with input tensor's size and stride (at least one dimension spans across two contiguous subspaces). Use .reshape(...) instead.")
+        return _mk(probe, self.dtype, (self,), view=True)
 
     def permute(self, *dims):
         if len(dims) == 1 and _isinstance(dims[0], (list, tuple)):
